@@ -200,8 +200,12 @@ namespace {
     {
         pk::draw_runtime(ctx, ctx.thorough ? 8 : 5);
         Rng r(mix_seed(ctx.seed, 61));
-        int n = (int) ctx.params.set("c09.participants", r.range(1, 9));
-        int phases = (int) ctx.params.set("c09.phases", r.range(1, 5));
+        // one run in six reuses one barrier for hundreds of phases (few participants): its internal phase
+        // counters are 8 bits wide and wrap every 128 phases
+        bool long_run = r.chance(1, 6);
+        int n = (int) ctx.params.set("c09.participants", long_run ? r.range(2, 3) : r.range(1, 9));
+        int phases = (int) ctx.params.set("c09.phases", long_run ? r.range(130, 300) : r.range(1, 5));
+        if (phases > 128) probe("barrier.more_than_128_phases");
         int64_t os_mask = ctx.params.set("c09.os_mask", r.chance(1, 2) ? (int64_t) r.below(512) : 0);
         // program ops are modifiers: [participant, phase, action, yields]; default = arrive_and_wait
         if (!ctx.program_from_replay)
